@@ -191,6 +191,12 @@ def run_select(case, ctx):
         ctx.check(False, "select:reported-dict", lambda: dict(h, note="number of results", got=len(res)))
         return
     feas = rec["feasible"]
+    # the objective entry of a column that the request names is that request's (compressed) priority: non-zero and of the sign that was asked for
+    for k, w in enumerate(rec["objectives"][:len(prios)]):
+        wl_ = [int(x) for x in w.tolist()]
+        bad = {i: (prios[k][i], wl_[ids.index(i)]) for i in prios[k] if i in ids and prios[k][i] != 0 and (wl_[ids.index(i)] > 0) != (prios[k][i] > 0)}
+        if any(i in ids and prios[k][i] != 0 for i in prios[k]):
+            ctx.check(not bad, "select:objective-follows-request", lambda: dict(h, index=k, request=prios[k], columns=ids, objective=wl_, wrong=bad))
     for k, (r, (vec, ov2, sc2), w) in enumerate(zip(res, rec["returned"], rec["objectives"])):
         sol = r if only_leafs else r[0]
         if vec is None:
